@@ -3,19 +3,22 @@ H("c19_names", "C19", "seq", ["harness/c19_names.cc", "harness/c19_noregex.cc"],
   what="real Meter::Create* of all 12 instrument kinds over a deviation-bounded generator of names (lengths 0,1,2,254,255,256,300 x every byte value at the "
        "first/second/middle/last position, NUL probes; thorough: two mutations) and units (lengths 0,1,63,64,300 x every byte value at first/last position), each as "
        "NUL-terminated std::string, slice of a longer buffer (valid and invalid tail) and exact-size heap block; one measurement, a pull MetricReader collects; "
-       "oracle: valid <=> exactly one stream with exactly that name/unit, invalid => inert instrument and no stream; the regex and the hand-written validator "
-       "variant are compared on the same inputs (counted)",
+       "oracle: valid <=> exactly one stream with exactly that name/unit, invalid => inert instrument and no stream; the code of a build without working std::regex "
+       "(hand-written validator, view/predicate.h #else branch through ViewRegistry::FindViews; compiled from the unchanged sources under other class names) is held to "
+       "the same reference on every sweep input and on a selector x instrument table (exact name, '*', patterns)",
   design_ref="5/C19")
 H("c19_views", "C19", "seq", ["harness/c19_views.cc"], sdk=C19_SDK,
   what="real MeterProvider with every set of <= 2 views over {instrument type} x {exact name, regex pattern, '*', no match} x {unit '', exact} x {meter selectors: wildcard, "
-       "exact name/version/schema, name only, other version, other name} x {view specs: identity, rename+description+Sum, LastValue+keep k1, Histogram+keep k2, Drop}; four "
-       "instruments (two counters, a histogram, an observable gauge) on two meters (one unversioned and schema-less with the same name) make one measurement each; oracle: the "
-       "streams at a pull reader are exactly those shaped by each matching view plus the default stream of every unmatched instrument (name, description, unit, point kind, attribute keys)",
+       "exact name/version/schema, name only, other version, other name} x {view specs: identity, rename+description+Sum, LastValue+keep k1, Histogram+keep k2, Drop, Histogram "
+       "with its own boundaries and no min/max, rename onto another instrument's name}; seven instruments (two counters, histogram, up-down counter, observable gauge / counter / "
+       "up-down counter) on two meters (one unversioned and schema-less with the same name) make one measurement each; oracle: the streams at a pull reader are exactly those shaped by "
+       "each matching view plus the default stream of every unmatched instrument (name, description, unit, point kind, configured histogram boundaries / min-max, attribute keys)",
   design_ref="5/C19")
 H("c19_scopes", "C19", "seq", ["harness/c19_scopes.cc"], sdk=C19_SDK,
   args={"quick": ["--rules=4"], "thorough": ["--rules=5"]},
   what="real TracerProvider / MeterProvider / LoggerProvider with a ScopeConfigurator built from every rule list up to the length bound over {name-equals x, name-equals y, "
-       "custom matcher on the version, custom matcher on an attribute} x {enable, disable} with both defaults; four scope identities emit one span / measurement / log record "
+       "custom matcher on the version, custom matcher on an attribute} x {enable, disable} with both defaults; four scope identities emit one span / one measurement through an "
+       "instrument of every kind (all 12 Create* against the short rule lists) / three log records (EmitLogRecord helper, CreateLogRecord + EmitLogRecord(record), a record made elsewhere) "
        "each into harness exporters (simple processors, pull reader); oracle: exactly the scopes enabled by the first matching rule (else the default) arrive, once, with their own "
        "identity; plus every ordered pair of (name, version, schema[, logger name, attributes]) requests under three configurators: same object iff equal in every component",
   design_ref="5/C19")
